@@ -17,7 +17,7 @@ from cddsim.world import SimWorld
 from checks import c12
 
 ID = "C19"
-LEVEL = "exploration"
+LEVEL = "fault_enumeration"
 RULE = ("Hypothesis-drawn input modules with 1..5 classes / functions / argparse functions (own renderer) or one "
         "JSON-schema file x parse kind (explicit or infer) x the eight emit kinds x name templates x "
         "--emit-and-infer-imports x --prepend / --imports-from-file x --no-word-wrap; histories of 1..4 steps: gen on an "
@@ -27,7 +27,9 @@ RULE = ("Hypothesis-drawn input modules with 1..5 classes / functions / argparse
         "exactly those names, I4 each symbol parsed back by cdd's matching parser has the source entry's interface (class / "
         "function / argparse output), I5 with import inference every typing/SQLAlchemy name used is bound. Always: I6 gen "
         "on an existing output at phase 0 raises and leaves bytes+mtime untouched with no write-mode open; I7 nothing but "
-        "the output path is created or written. A gen that raises without writing is a refusal, not a violation. "
+        "the output path is created or written; on flagged plans every seam call of a gen on an absent output is faulted once "
+        "per kind and I7 plus 'gen again on whatever was left must refuse' (I6) are judged after each. A gen that raises "
+        "without writing is a refusal, not a violation. "
         "Non-trivial = a gen wrote an output; distinct = distinct outcome digest.")
 ASSUMPTIONS = [
     "interfaces from the common representable domain; Optional parameters always carry a default",
@@ -120,7 +122,7 @@ def plans(draw):
             steps.append(st_)
         else:
             steps.append({"op": k})
-    return {"entries": ent, "steps": steps, "black": True}
+    return {"entries": ent, "steps": steps, "black": True, "enum": draw(st.integers(0, 4)) == 4}
 
 
 # -------------------------------------------------------------------------------------- renderer
@@ -387,6 +389,12 @@ def simulate(plan):
                 reh = ops.invoke(world, op)
                 world.restore(cp)
                 fault = c12._resolve_fault(stp["fault"], reh.io_events())
+            if plan.get("enum") and not existed and not stp.get("phase") and not hyp.SHRINKING[0] \
+                    and si == len(plan["steps"]) - 1:
+                reh = ops.invoke(world, op)
+                world.restore(cp)
+                res.violations += _enumerate(world, plan, stp, op, cp, reh.io_events(), stats, probe, bump, si)
+                world.restore(cp)
             before = world.snapshot(with_mtime=True)
             o = ops.invoke(world, op, faults=[fault] if fault else None)
             after = world.snapshot(with_mtime=True)
@@ -493,6 +501,66 @@ def simulate(plan):
     res.nontrivial = wrote
     res.sample = {"input": in_text[:600], "history": history}
     return res
+
+
+def _enumerate(world, plan, stp, op, cp, reh_events, stats, probe, bump, si):
+    """Every seam call of a gen on an absent output faulted once per kind; after each: I7 (nothing but the output
+    touched), then gen AGAIN on whatever the failure left behind — if an output file exists (torso, empty, or complete)
+    the second gen must refuse and leave it untouched (I6)."""
+    out = []
+    targets = []
+    for e in reh_events:
+        for kind in ("err", "crash"):
+            targets.append((e, kind))
+        if e["kind"] == "close_w" and e.get("nbytes", 0) > 1:
+            targets.append((e, "tear"))
+    for e, kind in targets:
+        world.restore(cp)
+        f = {"seam": "io", "at": e["io"], "kind": "crash" if kind == "crash" else "err"}
+        if kind != "crash":
+            f["errno"] = seams.ERRNOS_FOR.get(e["kind"], ("EIO",))[0]
+            if e["kind"] == "close_w":
+                f["keep"] = 0.5 if kind == "tear" else 0.0
+        before = world.snapshot(with_mtime=True)
+        o = ops.invoke(world, op, faults=[f])
+        after = world.snapshot(with_mtime=True)
+        stats["evaluations"] += 1
+        bump(stats, "enumerated_faults")
+        for fr in o.fired:
+            bump(stats["faults_fired"], "%s@%s" % (fr["kind"] if fr["kind"] == "crash" else fr.get("errno", "err"), fr["event"]))
+            stats["fault_sites"].append("%s:%s" % (fr["event"], fr.get("site")))
+            bump(probe, "fault_fired")
+            if fr["kind"] == "crash":
+                bump(probe, "crash_fired")
+        vs = []
+        created, modified, deleted = SimWorld.diff(before, after)
+        other = [x for x in created + modified + deleted if x not in ("out.py", "~/out.py")]
+        if other:
+            vs.append({"clause": "I7", "detail": "paths other than the output changed: %s" % other[:5],
+                       "sig": {"what": "other_path_changed"}})
+        if o.fired and world.exists("out.py"):
+            bump(probe, "existing_output_is_torso")
+            b2 = world.snapshot(with_mtime=True)
+            o2 = ops.invoke(world, op)
+            a2 = world.snapshot(with_mtime=True)
+            c2, m2, d2 = SimWorld.diff(b2, a2)
+            wopen = [ev for ev in o2.events if ev["kind"] in ("open_w", "open_raw_w") and ev.get("path") == "out.py"]
+            if o2.ok or "out.py" in m2 + d2 or wopen:
+                vs.append({"clause": "I6", "detail": "gen on the torso left by a failed gen: outcome %s, output %s, %d "
+                                                     "write-mode open(s)" % (o2.kind, "changed" if "out.py" in m2 + d2 else
+                                                                             "unchanged", len(wopen)),
+                           "sig": {"what": "overwrote_or_accepted_existing", "returned": o2.ok,
+                                   "changed": "out.py" in m2 + d2, "phase_given": False}})
+        for x in vs:
+            p2 = dict(plan, enum=False)
+            p2["steps"] = [dict(s_) for s_ in plan["steps"][:si + 1]]
+            p2["steps"][-1]["fault"] = f
+            p2["steps"].append(dict(plan["steps"][si], fault=None))
+            x["detail"] = "enumerated fault %s at seam call %d (%s %s): %s" % (kind, e["io"], e["kind"], e["path"], x["detail"])
+            x["final"] = True
+            x["trace"] = {"kind": "c19-plan", "plan": p2}
+            out.append(x)
+    return out
 
 
 # ------------------------------------------------------------------------------ runner interface
